@@ -140,7 +140,7 @@ theorem writeValue_ops_iff (o : Opts) (cs : List Call) (e : Enc) (v : Bytes) (hl
     (h : runOps (Encoder.new o) cs = some e) :
     (writeValue e v).2 = none ↔
       ∃ out rest,
-        reformatValue o (2 * v.length + 2) (beforeToken e (valueKind v)) (skipWS v) e.m.depth = .ok (out, rest) ∧
+        reformatValue o (3 * v.length + 4) (beforeToken e (valueKind v)) (skipWS v) e.m.depth = .ok (out, rest) ∧
         skipWS rest = [] ∧
         Viable o.maxDepth (((histToks o cs).map kindOf) ++ [firstKind (valueKind v)]) ∧
         (valueKind v = 0x22 → o.allowDup = false → isNamePos (track o (PDA.init, []) (histToks o cs)).1 = true →
